@@ -340,7 +340,8 @@ MC_HARNESS(sba) {
 //         D dealloc my oldest chunk. PoolAllocator shared by the threads; chunks left at the end stay live
 //         until the allocator is destroyed.
 // nolock: params cs, ss, depth. One thread; every history of `depth` operations over
-//         {alloc, dealloc newest, dealloc oldest, clear} is enumerated with mc::choose (bound 0).
+//         {alloc, dealloc newest, dealloc oldest, clear, alloc a whole slab's worth of chunks (if > 1)} is
+//         enumerated with mc::choose (bound 0).
 namespace {
 struct SlabLog {
   struct Slab {
@@ -482,12 +483,15 @@ MC_HARNESS(nolock) {
     dispenso::NoLockPoolAllocator pa(cs, ss, [&log](size_t n) { return log.do_alloc(n); }, [&log](void* p) { log.do_dealloc(p); });
     std::deque<char*> held;
     for (int step = 0; step < depth; step++) {
-      int op = mc::choose(4);
-      sig = sig * 4 + op;
-      if (op == 0) {
-        char* p = pa.alloc();
-        cm.on_alloc(log, 0, p);
-        held.push_back(p);
+      int op = mc::choose(ss / cs > 1 ? 5 : 4);
+      sig = sig * 5 + op;
+      if (op == 0 || op == 4) {
+        // op 4: a whole slab's worth of chunks, so that several slabs exist within the depth bound
+        for (size_t n = 0; n < (op == 4 ? ss / cs : 1); n++) {
+          char* p = pa.alloc();
+          cm.on_alloc(log, 0, p);
+          held.push_back(p);
+        }
         mc::cover("nolock_alloc");
       } else if (op == 1 || op == 2) {
         if (held.empty()) continue;
